@@ -2,5 +2,4 @@ package traefikoidc_test
 
 import "testing"
 
-func familyDiscovery(t *testing.T) { t.Fatal("not built") }
 func familySched(t *testing.T)     { t.Fatal("not built") }
